@@ -107,3 +107,69 @@ Theorem from_pyzx_sound_partial :
       (n1, n1, [(BSpider SZ 1 1 (9 # 8), n0); (BSpider SX 1 1 (-3 # 8), n0)]) ] = true.
 Proof. exact ZXSemLemmas.from_pyzx_sound_partial. Qed.
 Print Assumptions from_pyzx_sound_partial.
+
+(* ------------------------------------------------------------------ export soundness, in general
+   (PyZX/KSum.v, PyZX/PyZXSound.v, PyZX/Cyc8Laws.v).  graph_sem / zx_sem are the
+   definitions of ZXSem.v, unchanged.  The scalar is carried exactly (graph.scalar =
+   product of the scalar boxes), Hadamard edges as in the code. *)
+Require Import DV.PyZX.KSum DV.PyZX.PyZXSound DV.PyZX.Cyc8Laws.
+
+(* ZXSem.to_pyzx_sound_stmt (without its hypothesis graph_simple g = true, which is
+   not needed), under ring_laws plus the law ring_laws lacks: rcplx respects Qeq
+   (the model's scalar product normalises fractions with Qred) *)
+Theorem to_pyzx_sound : forall K, ring_laws K -> cplx_proper K -> forall dom cod bs g,
+  zx_typed dom bs cod -> to_pyzx dom cod bs = Ok g ->
+  forall i o, length i = dom -> length o = cod ->
+    req K (graph_sem K g i o) (zx_sem K dom bs i o).
+Proof. exact PyZXSound.to_pyzx_sound. Qed.
+Print Assumptions to_pyzx_sound.
+
+(* the same under the laws the proof really uses (commutative semiring with -1 and
+   1/sqrt 2; rexp invariant under the export's phase normalisation; rcplx 1 0 = 1;
+   rcplx multiplicative on cmul) *)
+Theorem to_pyzx_sound_export : forall K, export_laws K -> forall dom cod bs g,
+  zx_typed dom bs cod -> to_pyzx dom cod bs = Ok g ->
+  forall i o, length i = dom -> length o = cod ->
+    req K (graph_sem K g i o) (zx_sem K dom bs i o).
+Proof. exact PyZXSound.to_pyzx_sound_export. Qed.
+Print Assumptions to_pyzx_sound_export.
+
+(* diagrams without scalar boxes: ring_laws alone, i.e. to_pyzx_sound_stmt as it is *)
+Theorem to_pyzx_sound_scalar_free : forall K, ring_laws K -> forall dom cod bs g,
+  zx_typed dom bs cod -> scalar_free bs -> to_pyzx dom cod bs = Ok g ->
+  forall i o, length i = dom -> length o = cod ->
+    req K (graph_sem K g i o) (zx_sem K dom bs i o).
+Proof. exact PyZXSound.to_pyzx_sound_scalar_free. Qed.
+Print Assumptions to_pyzx_sound_scalar_free.
+
+(* the executable ring Cyc8 is a non-trivial model of export_laws (non-vacuity), so
+   the executable semantics agree on EVERY diagram in scope, any phases
+   (to_pyzx_sound_partial above: 14 instances by computation) *)
+Theorem cyc8_export_laws : export_laws Cyc8 /\ ~ req Cyc8 (r1 Cyc8) (r0 Cyc8).
+Proof. exact (conj Cyc8Laws.cyc8_export_laws Cyc8Laws.cyc8_nontrivial). Qed.
+Print Assumptions cyc8_export_laws.
+
+Theorem to_pyzx_sound_cyc8 : forall dom cod bs g,
+  zx_typed dom bs cod -> to_pyzx dom cod bs = Ok g ->
+  forall i o, length i = dom -> length o = cod ->
+    c8_eqb (graph_sem Cyc8 g i o) (zx_sem Cyc8 dom bs i o) = true.
+Proof. exact Cyc8Laws.to_pyzx_sound_cyc8. Qed.
+Print Assumptions to_pyzx_sound_cyc8.
+
+(* the same over the abstract commutative *-ring of Quantum/Ring.v (Leibniz equality),
+   for any phase map e and complex embedding c with the three remaining laws *)
+Require DV.Quantum.Ring DV.PyZX.SoundStarRing.
+Theorem to_pyzx_sound_starring :
+  forall (SR : DV.Quantum.Ring.StarRing)
+         (e : Q -> DV.Quantum.Ring.SR_car SR) (c : Q -> Q -> DV.Quantum.Ring.SR_car SR),
+  (forall p, e (export_phase p * (1 # 2))%Q = e p) ->
+  c 1%Q 0%Q = DV.Quantum.Ring.r1 ->
+  (forall a b, c (fst (cmul a b)) (snd (cmul a b))
+               = DV.Quantum.Ring.rmul (c (fst a) (snd a)) (c (fst b) (snd b))) ->
+  forall dom cod bs g,
+  zx_typed dom bs cod -> to_pyzx dom cod bs = Ok g ->
+  forall i o, length i = dom -> length o = cod ->
+    graph_sem (SoundStarRing.ringops_of SR e c) g i o
+    = zx_sem (SoundStarRing.ringops_of SR e c) dom bs i o.
+Proof. exact SoundStarRing.to_pyzx_sound_starring. Qed.
+Print Assumptions to_pyzx_sound_starring.
